@@ -1079,6 +1079,103 @@ def _explored_mass_clifford2(extra):
     return tot
 
 
+# ------------------------------------------------------------------ histories: earlier samples edited / kept
+def _bits10(k):
+    return tuple((k >> i) & 1 for i in range(10))
+
+
+def fn_fresh(items):
+    """item = [pkg, what, N, k]: the generator state is FORCED to the same state k twice (pyclifford: scripted coin string
+    = the 10 bits of k then filler, for both Mersenne-Twisters; torchclifford: torch.manual_seed(k)).
+      sampler history: a = f(N) -> a is overwritten in place (all arrays) -> same generator state -> b = f(N): b must read
+        exactly what a read when it was returned (a sampler must not hand out or keep shared tables), and overwriting a
+        third sample must not change b.
+      povm history: samples = circuit.povm(3) of a random circuit are read as they are yielded, KEPT, and re-read after
+        the generator is exhausted and after each of them was overwritten: kept samples must not change (no storage shared
+        between samples of one call)."""
+    n = nt = 0
+    viol = []
+    for item in items:
+        pkg, what, N, k = item
+        if pkg == 'py':
+            mod_s, mod_c = lib.pst, lib.pci
+            arr = lambda x: (np.array(x.gs).astype(np.int64).tobytes(), (np.array(x.ps).astype(np.int64) % 4).tobytes(), int(getattr(x, 'r', -1)))
+
+            def force():
+                rng.script(_bits10(k), _bits10(k ^ 0x155))
+
+            def wreck(x):
+                x.gs[...] = 0
+                x.ps[...] = 1
+        else:
+            m = lib.torch_mods()
+            mod_s, mod_c, torch = m['tst'], m['tci'], m['torch']
+            arr = lambda x: (lib.t2n(x.gs).tobytes(), (lib.t2n(x.ps) % 4).tobytes(), int(getattr(x, 'r', -1)))
+
+            def force():
+                torch.manual_seed(k)
+
+            def wreck(x):
+                x.gs.zero_()
+                x.ps.fill_(1.0)
+
+        def bad(sig, msg):
+            viol.append(V('C16/history/%s/%s/%s' % (pkg, what, sig), item, '%s %s(N=%d), generator state #%d: %s' % (pkg, what, N, k, msg)))
+        try:
+            if what.startswith('povm:'):
+                ctor = {'onsite': lambda: mod_c.onsite_rcc(N), 'global': lambda: mod_c.global_rcc(N), 'brickwall': lambda: mod_c.brickwall_rcc(N, 2)}[what[5:]]
+                force()
+                circ_ = ctor()
+                kept, keys = [], []
+                for smp in circ_.povm(3):
+                    kept.append(smp)
+                    keys.append(arr(smp))
+                n += 3
+                nt += 3
+                if len({id(x) for x in kept}) != 3:
+                    bad('same-object', 'povm(3) yields the same object more than once')
+                    continue
+                now = [arr(x) for x in kept]
+                if now != keys:
+                    j = [i for i in range(3) if now[i] != keys[i]][0]
+                    bad('kept-sample-changed', 'sample %d of one povm(3) call reads differently after the later samples were drawn (signs/strings shared between samples)' % j)
+                    continue
+                for j in range(3):
+                    wreck(kept[j])
+                    for i in range(j + 1, 3):
+                        if arr(kept[i]) != keys[i]:
+                            bad('samples-share-storage', 'overwriting sample %d of one povm(3) call changed sample %d' % (j, i))
+                            break
+                    else:
+                        continue
+                    break
+            else:
+                f = getattr(mod_s, what)
+                force()
+                a = f(N)
+                ka = arr(a)
+                wreck(a)
+                force()
+                b = f(N)
+                kb = arr(b)
+                n += 2
+                nt += 2
+                if kb != ka:
+                    bad('not-fresh-after-edit', 'the same generator state gave %s before and a different object after the first result was overwritten in place: the sampler hands out (or draws from) storage that the caller can edit' % what)
+                    continue
+                force()
+                c = f(N)
+                wreck(c)
+                n += 1
+                if arr(b) != kb:
+                    bad('results-share-storage', 'overwriting a later sample changed an earlier one')
+        except Harness:
+            raise
+        except Exception as e:
+            bad('raises-%s' % type(e).__name__, 'raised %s' % e)
+    return {'n': n, 'nt': nt, 'viol': viol}
+
+
 def legs(tier):
     quick = tier == 'quick'
     for N in (1, 2):
@@ -1195,4 +1292,12 @@ def legs(tier):
         out.append(Leg('torch_uniform_N3_whole_tree', fn_n3_torch_full, [[2, 16]], chunk=1, parallel=False, probe=0, timeout=6 * 3600, src_states=dom.SP_ORDER[3],
                        bound='torchclifford random_clifford(3): ALL coin strings of 24 and 26 coins (about 23 M leaves, ~17 core-hours, split over the 4096 twelve-coin prefixes and 16 forked workers; '
                              'explored mass 0.865): every table valid, all 1451520 tables equally often per coin-length class, no table above 1/|Sp(6,2)|'))
+    K = 12 if quick else 64
+    fitems = [[pkg, what, N, k] for pkg in ('py', 'torch') for what in ('random_clifford_map', 'random_pauli_map', 'random_clifford_state', 'random_pauli_state') for N in (1, 2, 3) for k in range(K)]
+    fitems += [['py', 'random_bit_state', N, k] for N in (1, 2, 3) for k in range(K)]
+    fitems += [[pkg, 'povm:' + c, N, k] for pkg in ('py', 'torch') for c in ('onsite', 'global') for N in (1, 2, 3) for k in range(K)]
+    fitems += [[pkg, 'povm:brickwall', N, k] for pkg in ('py', 'torch') for N in (2, 4) for k in range(K)]      # brickwall_rcc wants an even N
+    out.append(Leg('sample_histories', fn_fresh, fitems, chunk=8, exhaustive=False, supplementary=True,
+                   bound='both packages, N<=3, %d forced generator states each: every sampler called, its result overwritten in place, called again under the same generator state (must return what it returned before); '
+                         'a later sample overwritten (earlier one unchanged); povm(3) of onsite / global / brickwall random circuits: samples read when yielded, kept, re-read after the call and after each other sample was overwritten' % K))
     return out
